@@ -19,7 +19,7 @@ RULE = (
     "signature: 0-4 params p0..p3, a generated suffix has literal defaults; call: k<=n positional values then a subset of the "
     "remaining params by name; syntax simple|classic; form assign-await|await|start-ref; values drawn from None/bool/int/float/"
     "str (quotes, newlines, $, braces)/list/dict (depth<=2), as literals or via the payload of a received event; callee: send "
-    "Echo(all params), reassign some params and the local $loc (also set in the caller), return literal | param | list of params "
+    "Echo(all params), (when the flow is called twice) append in place to list parameters that received their default, reassign some params and the local $loc (also set in the caller), return literal | param | list of params "
     "| dict of params; sibling leg: two instances of one flow interleaved by events, each changing its own variables. "
     "Non-trivial = the call mixes >=2 of {positional, named, defaulted} or passes a container/None/bool; distinct by case."
 )
@@ -100,6 +100,9 @@ def _case(draw):
         "assigns": assigns,
         "ret": ret,
         "caller_loc": draw(lit_scalar),
+        # call the flow twice with the same arguments; the callee mutates IN PLACE the container parameters that received
+        # their declared default, so the second instance must still see the pristine declared default
+        "repeat": draw(st.booleans()),
         "flow_name": draw(st.sampled_from(["f", "do thing", "handle user request"])),
     }
 
@@ -121,6 +124,10 @@ def _callee_model(case):
         else:
             env[p["name"]] = None
     echo = dict(env)
+    if case.get("repeat"):
+        for i, p in enumerate(case["sig"]):
+            if i >= len(case["pos"]) and p["name"] not in case["named"] and isinstance(p.get("default"), list):
+                env[p["name"]] = list(p["default"]) + [99]
     env["loc"] = "callee-local"
     for target, val in case["assigns"]:
         env[target] = val
@@ -143,8 +150,17 @@ def _program(case):
     name = case["flow_name"]
     sig = " ".join(f"${p['name']}" + (f"={lit(p['default'])}" if "default" in p else "") for p in case["sig"])
     lines = [f"flow {name} {sig}".rstrip()]
-    echo_args = ", ".join(f"{p['name']}=${p['name']}" for p in case["sig"])
+    def _mutated(i, p):
+        return bool(case.get("repeat")) and i >= len(case["pos"]) and p["name"] not in case["named"] and isinstance(p.get("default"), list)
+
+    # a list that is appended to afterwards is echoed as a copy (`$p + []`): the event would otherwise alias the mutated object
+    echo_args = ", ".join(f"{p['name']}=${p['name']}" + (" + []" if _mutated(i, p) else "") for i, p in enumerate(case["sig"]))
     lines.append(f"  send Echo({echo_args})")
+    if case.get("repeat"):
+        for i, p in enumerate(case["sig"]):
+            omitted = i >= len(case["pos"]) and p["name"] not in case["named"]
+            if omitted and isinstance(p.get("default"), list):
+                lines.append(f"  (${p['name']}.append(99))")
     lines.append('  $loc = "callee-local"')
     for target, val in case["assigns"]:
         lines.append(f"  ${target} = {lit(val)}")
@@ -187,6 +203,9 @@ def _program(case):
         lines.append("  $x = None")
     caller_args = ", ".join(f"{p['name']}=${p['name']}" for p in case["sig"])
     lines.append(f"  send Res(x=$x, loc=$loc{', ' if caller_args else ''}{caller_args})")
+    if case.get("repeat"):
+        lines.append(f"  await {call}")
+        lines.append("  send Done2()")
     lines += ["  match Never()", ""]
     return "\n".join(lines), payload
 
@@ -254,7 +273,11 @@ def prop(case):
     if case["via_event"]:
         call_desc += f" with $e={payload!r}"
     echos = [_strip(e) for e in events if e["type"] == "Echo"]
-    if echos != [echo_exp]:
+    if case.get("repeat"):
+        if echos != [echo_exp, echo_exp]:
+            kind = "default-not-fresh" if echos[:1] == [echo_exp] else "binding"
+            raise Violation(kind, f"{call_desc} called twice (the callee appends to defaulted list parameters in place): callee saw {echos}, expected twice {echo_exp}")
+    elif echos != [echo_exp]:
         raise Violation("binding", f"{call_desc}: callee saw {echos}, expected [{echo_exp}]")
     res = [_strip(e) for e in events if e["type"] == "Res"]
     caller_exp = {"x": ret_exp if case["form"] == "assign" else None, "loc": case["caller_loc"]}
@@ -276,4 +299,8 @@ def prop(case):
         labels.append("omitted-no-default")
     if case["assigns"]:
         labels.append("callee-assigns")
+    if case.get("repeat"):
+        labels.append("called-twice")
+        if any(isinstance(p.get("default"), list) and i >= k and p["name"] not in case["named"] for i, p in enumerate(case["sig"])):
+            labels.append("defaulted-list-mutated-in-place")
     return ok(nt=nt, labels=labels, view={"call": call_desc, "echo": echo_exp, "returned": ret_exp})
